@@ -14,7 +14,8 @@ EXTENDS Pyxis, Props, Json
 CONSTANTS NB0, Variants, WithB1, B1Vft, Clash, DDs, DDVft, Ptrs, Split, Lead, EmptyBlocks
 
 Leaf(n) == Field(n, "pub", <<>>, TCPtr(TNm("u8")), None, FALSE)
-BaseF(n, t) == Field(n, "pub", <<>>, TNm(t), None, TRUE)
+(* base fields carry a doc comment: it is an attribute next to `base`, in either order *)
+BaseF(n, t) == Field(n, "pub", <<" base part " \o n>>, TNm(t), None, TRUE)
 
 F1 == Func("f1", "pub", <<" first">>, <<ArgM>>, TNone, None, None, "")
 F2 == Func("f2", "pub", <<>>, <<ArgC, Arg("a", TNm("u32"))>>, TNm("u32"), None, None, "")
